@@ -187,6 +187,11 @@ pub fn c03(tier: &str, seed: u64) -> Vec<Case> {
 /// messages for the parser-side properties: reference-encoded with caller-chosen compression,
 /// RDLENGTH larger/smaller than natural, counts ±1, OPT anywhere, followed by more records
 pub fn hostile_messages(tier: &str, seed: u64) -> Vec<(Vec<u8>, String)> {
+    hostile_messages_x(tier, seed).into_iter().map(|(b, t, _)| (b, t)).collect()
+}
+
+/// as `hostile_messages`, with the packet text a pristine reference encoding was made from
+pub fn hostile_messages_x(tier: &str, seed: u64) -> Vec<(Vec<u8>, String, Option<String>)> {
     let thorough = tier == "thorough";
     let mut g = Gen::new(seed ^ 0x55);
     let mut r = Rng::new(seed ^ 0x77);
@@ -200,7 +205,10 @@ pub fn hostile_messages(tier: &str, seed: u64) -> Vec<(Vec<u8>, String)> {
         let pos = if p.opt().is_some() { Some(r.below(5) as usize) } else { None };
         let (bytes, _) = refenc::encode_packet(&ptxt, Compress::Random(&mut r, 5), false, pos);
         if bytes.len() > 4000 { continue; }
-        v.push((bytes.clone(), "refenc".to_string()));
+        // with a second OPT-typed record in the additional section "the" OPT record is whichever comes
+        // first on the wire: no expectation then
+        let two_opts = p.opt().is_some() && p.additional_records.iter().any(|x| matches!(x.rdata, rdata::RData::OPT(_)));
+        v.push((bytes.clone(), "refenc".to_string(), if two_opts { None } else { Some(ptxt.clone()) }));
         // RDLENGTH / count perturbations located with the independent walker
         if let Some(w) = walker::walk(&bytes) {
             let entries: Vec<&walker::Entry> = w.sections.iter().flatten().collect();
@@ -211,14 +219,14 @@ pub fn hostile_messages(tier: &str, seed: u64) -> Vec<(Vec<u8>, String)> {
                     if nl < 0 || nl > 65535 { continue; }
                     let mut m = bytes.clone();
                     m[e.rd_start - 2..e.rd_start].copy_from_slice(&(nl as u16).to_be_bytes());
-                    v.push((m, "rdlength-changed".to_string()));
+                    v.push((m, "rdlength-changed".to_string(), None));
                     // same, but with the bytes adjusted so that the envelope stays consistent
                     if delta > 0 && delta < 9 {
                         let mut m2 = bytes[..e.next()].to_vec();
                         m2.extend(r.bytes(delta as usize));
                         m2.extend_from_slice(&bytes[e.next()..]);
                         m2[e.rd_start - 2..e.rd_start].copy_from_slice(&(nl as u16).to_be_bytes());
-                        v.push((m2, "rdata-surplus".to_string()));
+                        v.push((m2, "rdata-surplus".to_string(), None));
                     }
                 }
             }
@@ -227,13 +235,13 @@ pub fn hostile_messages(tier: &str, seed: u64) -> Vec<(Vec<u8>, String)> {
                     let mut m = bytes.clone();
                     let c = u16::from_be_bytes([m[4 + 2 * k], m[5 + 2 * k]]).wrapping_add(d);
                     m[4 + 2 * k..6 + 2 * k].copy_from_slice(&c.to_be_bytes());
-                    v.push((m, "count±1".to_string()));
+                    v.push((m, "count±1".to_string(), None));
                 }
             }
         }
         if i % 5 == 0 {
             for cut in [bytes.len() - 1, bytes.len() / 2, 13] {
-                if cut < bytes.len() { v.push((bytes[..cut].to_vec(), "truncated".to_string())); }
+                if cut < bytes.len() { v.push((bytes[..cut].to_vec(), "truncated".to_string(), None)); }
             }
         }
     }
@@ -304,10 +312,14 @@ fn framing_oracle(b: &[u8]) -> Option<(String, String)> {
 
 pub fn c05(tier: &str, seed: u64) -> Vec<Case> {
     let mut v = vec![];
-    for (b, tag) in hostile_messages(tier, seed) {
+    for (b, tag, expected) in hostile_messages_x(tier, seed) {
         let out = parse_out(&b);
         let mut c = Case::new(format!("parse {}", text::hex(&b)), out.clone()).tag(&tag).tag(&format!("outcome:{}", class_of(&out)));
         if let Some((k, m)) = framing_oracle(&b) { c = c.fail(&k, m); }
+        // a message encoded by the independent reference encoder (compression chosen by the encoder, in
+        // any name) must decode to the values it was encoded from: every element resumes right after
+        // the in-place bytes of the names inside it
+        if let Some(want) = expected { if out != format!("ok {}", want) { c = c.fail("reference-encoding-misread", format!("the reference encoding of a packet does not parse to that packet: GOT {} WANT {}", &out[..out.len().min(700)], &want[..want.len().min(700)])); } }
         if out == "panic" { c = c.fail("parse-panic", "panic".into()); }
         v.push(c);
     }
